@@ -600,6 +600,25 @@ func exec(line string) string {
 				return "bad-op"
 			}
 			return e.get(k)
+		case w[0] == "sbget":
+			// BufferSnapshotBatchGetter.BatchGet: same body as BufferBatchGetter.BatchGet, repaired by the same commit
+			keys, ok := unhexAll(w[1:])
+			if !ok {
+				return "bad-op"
+			}
+			var snap kv.BatchGetter = e.snap
+			if e.txn != nil {
+				snap = e.txn.GetSnapshot()
+			}
+			m, err := transaction.NewBufferSnapshotBatchGetter(e.buf, snap).BatchGet(context.Background(), keys)
+			if err != nil {
+				return "err"
+			}
+			out := make(map[string][]byte, len(m))
+			for k, v := range m {
+				out[k] = v.Value
+			}
+			return mapListing(out)
 		case w[0] == "bget":
 			keys, ok := unhexAll(w[1:])
 			if !ok {
@@ -860,8 +879,12 @@ func (g *gen) keyList() string {
 	for i := 0; i < n; i++ {
 		ws = append(ws, vx.Hex(g.key()))
 	}
-	if g.r.Chance(25) && len(ws) > 0 { // duplicated key in one batch
-		ws = append(ws, ws[g.r.Intn(len(ws))])
+	if g.r.Chance(30) && len(ws) > 0 { // duplicated keys in one batch (adjacent, apart, more than twice)
+		for n := 1 + g.r.Intn(2); n > 0; n-- {
+			at := g.r.Intn(len(ws) + 1)
+			ws = append(ws[:at:at], append([]string{ws[g.r.Intn(len(ws))]}, ws[at:]...)...)
+		}
+		g.run.Count("batch:duplicated-key")
 	}
 	return strings.Join(ws, " ")
 }
@@ -909,7 +932,7 @@ func (g *gen) oneCase(n int, mode string, nOps int, thorough bool) {
 		case x < 46:
 			g.do("get " + vx.Hex(g.key()))
 		case x < 51:
-			g.do("bget " + g.keyList())
+			g.do([]string{"bget ", "bget ", "sbget "}[g.r.Intn(3)] + g.keyList())
 		case x < 55:
 			g.do("pbget " + g.keyList())
 		case x < 61:
